@@ -67,7 +67,19 @@ def judge(chk, drive, jobs, module, cfg, nshards, tags_wanted, shard_key=None, h
                 continue
             k, why = own
             if (idx + 1, why) not in got:
-                raise vlib.Inconclusive("unreproduced rejection: %s" % k)
+                # not reproducible alone: the defect may depend on the calls made before it in the same process (shared caches).
+                # Replay the whole prefix of the original run in a fresh process and validate only the event in question.
+                ev0 = reps[k]["event"]
+                prefix = [strip(e) for e in evs if e["i"] <= ev0["i"]]
+                for j in prefix[:-1]:
+                    j["proj"] = "outcome"
+                sub2 = vlib.run_drive(drive, prefix, chk.work, name="repro-prefix")
+                _, bad3, _, _ = vlib.validate_traces(chk.work, module, cfg, [sub2[-1:]], heap=heap, timeout=timeout)
+                if (1, why) not in {(b["l"], b["why"]) for b in bad3}:
+                    raise vlib.Inconclusive("unreproduced rejection: %s" % k)
+                chk.report(k + " (history-dependent)", "%s: only after the %d calls made before it in the same process" % (k, len(prefix) - 1),
+                           dict(jobs=prefix, expect=why, last_only=True))
+                owners[idx] = None
             ev = sub[idx]
             what = describe(ev, why) if describe else "%s: content=%r -> %s" % (k, bytes(ev["content"])[:40], why)
             chk.report(k, what, dict(jobs=rjobs[max(0, idx - 1):idx + 1] if why.startswith("pattern-depends") else [rjobs[idx]], expect=why))
@@ -140,6 +152,8 @@ def replay_generic(prop, path, module, cfg, heap="3g"):
     drive = vlib.build_harness(chk.work)
     evs = vlib.run_drive(drive, r["jobs"], chk.work)
     _, bad, _, _ = vlib.validate_traces(chk.work, module, cfg, [evs], heap=heap)
+    if r.get("last_only"):
+        _, bad, _, _ = vlib.validate_traces(chk.work, module, cfg, [evs[-1:]], heap=heap)
     hit = [b for b in bad if b["why"] == r.get("expect", b["why"])]
     for b in hit:
         print("REPRODUCED l=%d why=%s %s" % (b["l"], b["why"], key_of(b["event"], b["why"])))
